@@ -9,7 +9,7 @@
    Pure definitions.  Every contract is an operator returning the SET OF NAMES
    of the clauses that fail (so {} = contract met); the trace specification
    DivisionsTrace evaluates them on call records of the real code, the
-   model-checking modules (DivisionLocations, DivisionsMC) on the specification's
+   model-checking modules (DivisionLocations, DivisionsMC, TruthMC) on the specification's
    own transcriptions / references (design check).
 
    Index labels are small integers (the harness maps real labels - ints,
@@ -162,4 +162,30 @@ RefRepart(src, arg) == CASE arg.k = "n" -> RefRepartN(src, arg.n)
 RefFromPandas(idx, arg) ==
   LET rows == IF arg.sort THEN StableSortByIdx(FrameOfIdx(idx)) ELSE FrameOfIdx(idx)
   IN MkObs(<<rows>>, IF SortedByIdx(rows) THEN <<rows[1].idx, rows[Len(rows)].idx>> ELSE <<>>)
+
+-----------------------------------------------------------------------------
+(* C41 - known divisions always describe the partitions truthfully.
+
+   Evaluated on an observation (see C44) of ANY collection, whatever program
+   produced it.  The property only speaks about collections that report known
+   divisions; a collection with unknown divisions, or an operation that raised,
+   is not judged here.
+     NPartitions  .npartitions = Len(.divisions) - 1 = number of partitions computed
+     DivsSorted   divisions are non-decreasing
+     InRange      every label of partition i lies in [d_i, d_i+1), the last
+                  partition's in the closed interval
+     InOrder      the partitions appear in index order: no label of an earlier
+                  partition is greater than a label of a later one              *)
+LabelsInOrder(lp) ==
+  \A i \in DOMAIN lp : \A k \in DOMAIN lp : i < k =>
+     \A x \in DOMAIN lp[i] : \A y \in DOMAIN lp[k] : lp[i][x] <= lp[k][y]
+
+TruthBad(obs) ==
+  IF obs.raised # "" \/ obs.divs = <<>> THEN {}
+  ELSE LET lp == ObsLabelParts(obs) IN
+       Viol("NPartitions", obs.nparts = Len(obs.divs) - 1 /\ Len(obs.parts) = obs.nparts /\ obs.ndivs = Len(obs.divs))
+       \cup Viol("DivsSorted", NonDecreasing(obs.divs))
+       \cup Viol("InRange", Len(lp) = Len(obs.divs) - 1 =>
+                              \A i \in DOMAIN lp : \A j \in DOMAIN lp[i] : InDivision(obs.divs, i, lp[i][j]))
+       \cup Viol("InOrder", LabelsInOrder(lp))
 =============================================================================
